@@ -327,12 +327,28 @@ RecordOwn(w, e0) ==           \* e0 \in OwnEvent(w); durable at once; the state 
   /\ act' = Label("RecordOwn", w, FALSE)
   /\ UNCHANGED <<prog, status, tx, bus, wr, done, cnt>>
 
+(* A synchronous subscriber that REACTS to a delivery by recording a follow-up event through the same
+   recorder (an audit trail): prog.audit = the event types it reacts to ({} in most programs).  The delivery
+   happens after the transaction is over, so the follow-up is recorded in a commit of its own and published
+   right after it, before the rest of the deferred publications.  An entry of pend with seq = 0 is a follow-up
+   the subscriber has yet to record. *)
+AuditTypes == IF "audit" \in DOMAIN prog THEN prog.audit ELSE {}
+FollowUp(e) == IF e.typ \in AuditTypes THEN <<E("status.changed", e.ent, "")>> ELSE <<>>
+
 Publish(w) ==                 \* commit_store_transaction / the tail of _record: only after the commit
-  /\ ~tx[w].open /\ pend[w] # <<>>
+  /\ ~tx[w].open /\ pend[w] # <<>> /\ pend[w][1].seq > 0
   /\ bus' = Append(bus, pend[w][1])
-  /\ pend' = [pend EXCEPT ![w] = Tail(@)]
+  /\ pend' = [pend EXCEPT ![w] = FollowUp(pend[w][1]) \o Tail(@)]
   /\ act' = Label("Publish", w, FALSE)
   /\ UNCHANGED <<prog, status, ev, cur, tx, wr, done, cnt>>
+
+AuditRecord(w) ==             \* the reacting subscriber: recorder._record without a scope = append + commit, then publish
+  /\ ~tx[w].open /\ pend[w] # <<>> /\ pend[w][1].seq = 0 /\ WriterFree(w)
+  /\ LET e == Stamp(pend[w][1], NextSeq(w)) IN
+       /\ ev' = Append(ev, e)
+       /\ pend' = [pend EXCEPT ![w] = <<e>> \o Tail(@)]
+  /\ act' = Label("AuditRecord", w, FALSE)
+  /\ UNCHANGED <<prog, status, cur, tx, bus, wr, done, cnt>>
 
 -----------------------------------------------------------------------------
 (* commits of the transactions that carry an event *)
@@ -510,7 +526,7 @@ C12_Snapshot == AllIdle => \A p \in 0..LastSeq(ev) : FromSnapshot(p, LastSeq(ev)
 
 TypeOK ==
   /\ \A x \in DOMAIN status : status[x] \in AllSt
-  /\ \A i \in DOMAIN ev : ev[i].typ \in WfTypes \cup StageTypes \cup TaskTypes /\ ev[i].ent \in Ents
+  /\ \A i \in DOMAIN ev : ev[i].typ \in WfTypes \cup StageTypes \cup TaskTypes \cup {"status.changed"} /\ ev[i].ent \in Ents
   /\ \A w \in Workers : tx[w].open \/ tx[w].evs = <<>>
   /\ Cardinality({w \in Workers : tx[w].open}) <= 1
 =============================================================================
